@@ -96,6 +96,36 @@ fn cmd_check(args: &[String]) -> i32 {
     checks::finish(&prop, tier, frag, t0.elapsed().as_secs_f64(), frag_path.as_deref())
 }
 
+/// Export registration sequences with the executed layout and the outcome of two dispatches of the
+/// sequential twin (for the `parallel`-off build and for the cross-process comparison).
+fn cmd_export(args: &[String]) -> i32 {
+    let path = args.get(2).cloned().unwrap_or_default();
+    let thorough = args.iter().any(|a| a == "thorough");
+    sched::install_quiet_hook();
+    let acc = |l: &[(&[u8], &[u8])]| -> Vec<(Vec<u8>, Vec<u8>)> { l.iter().map(|(r, w)| (r.to_vec(), w.to_vec())).collect() };
+    let mut plans: Vec<Vec<spec::Op>> = Vec::new();
+    let core = acc(&[(&[], &[]), (&[0], &[]), (&[], &[0]), (&[1], &[]), (&[], &[1]), (&[0], &[1])]);
+    plans.extend(checks::distinct_plans(&planmc::Profile::B { access: core.clone(), times: vec![3], unnamed: false, dup: false, pairs: false }, 3, 1));
+    plans.extend(checks::distinct_plans(&planmc::Profile::B { access: core, times: vec![1, 5], unnamed: true, dup: true, pairs: true }, if thorough { 3 } else { 2 }, 2));
+    plans.extend(checks::distinct_plans(&planmc::Profile::D { access: acc(&[(&[], &[]), (&[], &[0])]) }, 4, 2));
+    plans.extend(checks::distinct_plans(&planmc::Profile::EB, 2, 1));
+    plans.extend(checks::distinct_plans(&planmc::Profile::F, 3, 1));
+    plans.extend(checks::distinct_plans(&planmc::Profile::C { times: vec![1, 5] }, if thorough { 7 } else { 6 }, 5));
+    let mut out = Vec::new();
+    for p in &plans {
+        let l = match obs::layout_of(p, &hsys::Ctx::identity_map()) {
+            Ok(l) => l,
+            Err(_) => continue,
+        };
+        let sc = schedmc::Scenario::plain(p.clone(), schedmc::Mode::Dispatch, 2);
+        let t = schedmc::run_scenario(&sc, true);
+        out.push(serde_json::json!({"ops": spec::plan_json(p), "layout": l.short(), "values": t.values, "obs": t.obs}));
+    }
+    std::fs::write(&path, serde_json::to_string(&out).unwrap()).expect("write export");
+    println!("exported {} sequences", out.len());
+    0
+}
+
 fn cmd_replay(args: &[String]) -> i32 {
     let path = args.get(2).cloned().unwrap_or_default();
     let txt = std::fs::read_to_string(&path).expect("read replay file");
@@ -162,6 +192,7 @@ fn main() {
         Some("smoke") => smoke(),
         Some("check") => std::process::exit(cmd_check(&args)),
         Some("replay") => std::process::exit(cmd_replay(&args)),
+        Some("export-plans") => std::process::exit(cmd_export(&args)),
         _ => {
             eprintln!("usage: mc <cmd>");
             std::process::exit(2);
